@@ -105,8 +105,19 @@ def add_header_to_file(
             path.touch()
             comment_style = EmptyCommentStyle
 
-    with open(path, "r", encoding="utf-8", newline="") as fp:
-        text = fp.read()
+    try:
+        with open(path, "r", encoding="utf-8", newline="") as fp:
+            text = fp.read()
+    except (OSError, UnicodeDecodeError) as error:
+        out.write(
+            _("Error: Could not read '{path}': {error}").format(
+                path=path, error=error
+            )
+        )
+        out.write("\n")
+        if created_license_file:
+            path.unlink()
+        return 1
     # A byte order mark is not part of the text. Keep it as the very first
     # character of the file.
     bom = ""
@@ -167,8 +178,17 @@ def add_header_to_file(
         out.write("\n")
         result = 1
     else:
-        with open(path, "w", encoding="utf-8", newline=line_ending) as fp:
-            fp.write(bom + output)
+        try:
+            with open(path, "w", encoding="utf-8", newline=line_ending) as fp:
+                fp.write(bom + output)
+        except OSError as error:
+            out.write(
+                _("Error: Could not write '{path}': {error}").format(
+                    path=path, error=error
+                )
+            )
+            out.write("\n")
+            return 1
         # TODO: This may need to be rephrased more elegantly.
         out.write(_("Successfully changed header of {path}").format(path=path))
         out.write("\n")
